@@ -672,6 +672,15 @@ static void op_query(void) {
   }
   log_obs(-1, -1, 0); log_ret_end();
 }
+/* does the thread's backing heap claim block s?  (heap_contains_block / heap_check_owned on hps[0]) */
+static void query_owned_by_main(int s) {
+  blk_t* b = &slots[s]; ret_t r; memset(&r, 0, sizeof(r));
+  log_call_begin("heap_contains_block", hps[0].id, b->id, 0, 0, 0, 0, "ok", 0, 0); log_obs(-1, -1, 0); log_call_end();
+  r.res = mi_heap_contains_block(hps[0].hp, b->p); log_ret_begin("heap_contains_block", &r); log_obs(-1, -1, 0); log_ret_end();
+  memset(&r, 0, sizeof(r));
+  log_call_begin("heap_check_owned", hps[0].id, b->id, 0, 0, 0, 0, "ok", 0, 0); log_obs(-1, -1, 0); log_call_end();
+  r.res = mi_heap_check_owned(hps[0].hp, b->p); log_ret_begin("heap_check_owned", &r); log_obs(-1, -1, 0); log_ret_end();
+}
 static void op_expand(void) {
   int s = pick_live(); if (s < 0) return;
   blk_t* b = &slots[s];
@@ -1324,6 +1333,9 @@ static void workload_alloc_base(const char* wl) {
                                   static int made = 0; if (!made) { vf_subproc_b = mi_subproc_new(); made = 1; }
                                   int h1 = run_worker_ex(60, 100, 20000, 1, 0);                       /* main sub-process, exits with everything live */
                                   worker_in_b = 1; int h2 = run_worker_ex(60, 100, 20000, 1, 0); worker_in_b = 0;     /* second sub-process, the same */
+                                  /* one block of the other sub-process is freed by the main thread (with reclaim on free this is where a segment would be
+                                     adopted): the memory of another sub-process is never adopted -- the main heap does not claim the blocks that are left */
+                                  { int first = 1; for (int s = 0; s < MAXSLOTS; s++) if (slots[s].p && slots[s].heap == h2) { if (first) { op_free_slot(s, FR_free); first = 0; } else if (vf_randn(4) == 0) query_owned_by_main(s); } }
                                   run_worker_ex(6, (size_t)9 << 20, (size_t)12 << 20, 0, 0);         /* main sub-process: fresh segments, visits */
                                   alloc_many(4, (size_t)9 << 20, (size_t)12 << 20, 0);
                                   for (int s = 0; s < MAXSLOTS; s++) if (slots[s].p && (slots[s].heap == h2 || slots[s].heap == h1)) op_free_slot(s, FR_free);
